@@ -59,6 +59,7 @@ def main():
     chk.require_goals(["conflict", "custom-conflict", "same-line-rewritten"])
     chk.assumptions += ["provenance is content based: a duplicated line is not a violation",
                         "open known findings excluded: %s" % ", ".join(kn)]
+    F.f16_witness(chk, known)
     return chk.finish()
 
 
